@@ -65,8 +65,13 @@ class RecFitter:
         # fit_regress supports the cosine / correlation family only; for other evaluation methods
         # this (user-supplied) fitter fits the correlation criterion
         fm = method if method in ('cosine', 'corr', 'cosine_cov', 'corr_cov') else 'corr'
-        theta = fit_regress(model, data, method=fm, pattern_idx=pattern_idx,
-                            pattern_descriptor=pattern_descriptor, sigma_k=sigma_k)
+        try:
+            theta = fit_regress(model, data, method=fm, pattern_idx=pattern_idx,
+                                pattern_descriptor=pattern_descriptor, sigma_k=sigma_k)
+        except np.linalg.LinAlgError:
+            # the fit is not posed on this (too small) training sample; a user fitter may return
+            # anything - the oracle uses the recorded value
+            theta = np.ones(model.n_param) / np.sqrt(model.n_param)
         self.calls.append({'data': data, 'pattern_idx': None if pattern_idx is None else list(pattern_idx),
                            'theta': np.array(theta, dtype=float).copy(), 'model': model.name})
         return theta
@@ -149,24 +154,26 @@ class Recorder:
 def recording(rec):
     """wrap the resample / fold constructors as seen by rsatoolbox.inference.evaluate"""
     import rsatoolbox.inference.evaluate as EV
+    import rsatoolbox.inference.boot_testset as BT
     names = ['bootstrap_sample', 'bootstrap_sample_rdm', 'bootstrap_sample_pattern', 'sets_k_fold', 'sets_random']
-    saved = {}
-    for n in names:
-        if not hasattr(EV, n):
-            raise HarnessError('binding lost: rsatoolbox.inference.evaluate has no name %r' % n)
-        real = getattr(EV, n)
-        saved[n] = real
+    saved = []
+    for mod, required in ((EV, names), (BT, names[:3])):
+        for n in required:
+            if not hasattr(mod, n):
+                raise HarnessError('binding lost: %s has no name %r' % (mod.__name__, n))
+            real = getattr(mod, n)
+            saved.append((mod, n, real))
 
-        def wrap(*a, _real=real, _n=n, **k):
-            out = _real(*a, **k)
-            rec.events.append((_n, a, k, out))
-            return out
-        setattr(EV, n, wrap)
+            def wrap(*a, _real=real, _n=n, **k):
+                out = _real(*a, **k)
+                rec.events.append((_n, a, k, out))
+                return out
+            setattr(mod, n, wrap)
     try:
         yield
     finally:
-        for n, f in saved.items():
-            setattr(EV, n, f)
+        for mod, n, f in saved:
+            setattr(mod, n, f)
 
 
 def _groups_count(data, desc):
@@ -232,6 +239,12 @@ def configs(tier):
                 out.append({'routine': 'eval_dual_bootstrap_random', 'n_rdm': nr, 'n_cond': 7, 'method': method,
                             'boot_type': bt, 'n_pattern': 3, 'n_test_rdm': 1, 'n_cv': 2, 'N': 2, 'rdm_desc': 'index',
                             'pat_desc': 'index', 'models': ['fixed', 'fitted']})
+    # E out-of-bag evaluation (boot_testset)
+    for routine in ('bootstrap_testset', 'bootstrap_testset_pattern', 'bootstrap_testset_rdm'):
+        for (nr, nc) in [(3, 5)] + ([(3, 6), (4, 6)] if big else []):
+            for method in (METHODS if big else ['cosine']):
+                out.append({'routine': routine, 'n_rdm': nr, 'n_cond': nc, 'method': method, 'N': 2,
+                            'rdm_desc': 'index', 'pat_desc': 'index', 'models': ['fixed', 'fitted']})
     # grouped descriptors for the cross-validated bootstrap (dof / grouping)
     out.append({'routine': 'bootstrap_crossval', 'n_rdm': 4, 'n_cond': 6, 'method': 'cosine', 'boot_type': 'both',
                 'k_pattern': 2, 'k_rdm': 1, 'n_cv': 1, 'N': 2, 'rdm_desc': 'grp', 'pat_desc': 'index',
@@ -243,7 +256,11 @@ def shards(tier, seed):
     out = []
     for cfg in configs(tier):
         r = cfg['routine']
-        if _is_full(cfg) and r == 'eval_bootstrap':
+        if r == 'bootstrap_testset':
+            for a in range(cfg['n_rdm']):
+                for b in range(cfg['n_rdm']):
+                    out.append({'cfg': cfg, 'root': [a, b]})
+        elif _is_full(cfg) and r == 'eval_bootstrap':
             # complete enumeration of the first resample's draws, split by the first two answers
             for a in range(cfg['n_rdm']):
                 for b in range(cfg['n_rdm']):
@@ -327,6 +344,10 @@ def execute(cfg, env, seed):
             res = EV.eval_dual_bootstrap_random(models, data, method=cfg['method'], fitter=fit_list,
                                                 n_pattern=cfg['n_pattern'], n_rdm=cfg['n_test_rdm'], N=cfg['N'],
                                                 n_cv=cfg['n_cv'], boot_type=cfg['boot_type'], use_correction=False)
+        elif r.startswith('bootstrap_testset'):
+            import rsatoolbox.inference.boot_testset as BT
+            fn = getattr(BT, r)
+            res = fn(models, data, method=cfg['method'], fitter=fit_list, N=cfg['N'])
         else:
             raise ValueError(r)
     return {'res': res, 'rec': rec, 'fitter': fitter, 'data': data, 'spec': spec, 'sets': sets, 'calls': rng.calls}
@@ -391,6 +412,8 @@ def judge(cfg, obs, ctx, case):
     res, rec, spec, data = obs['res'], obs['rec'], obs['spec'], obs['data']
     method, nc = cfg['method'], cfg['n_cond']
     sig = r
+    if r.startswith('bootstrap_testset'):
+        return _judge_testset(cfg, obs, ctx, case)
     ev = np.asarray(res.evaluations)
     nm = len(spec)
     rdm_vecs = [list(map(float, v)) for v in data.dissimilarities]
@@ -551,6 +574,57 @@ def judge(cfg, obs, ctx, case):
                  'dof %r; resampled units: %d rdm groups, %d condition groups (boot_type %s)' % (res.dof, g_r, g_p, bt))
 
 
+def _judge_testset(cfg, obs, ctx, case):
+    """out-of-bag evaluation: parameters fitted on the bootstrap sample, evaluated on exactly the RDMs
+    and conditions the draw left out"""
+    r = cfg['routine']
+    res, rec, spec, data = obs['res'], obs['rec'], obs['spec'], obs['data']
+    method, nc, N = cfg['method'], cfg['n_cond'], cfg['N']
+    ev = np.asarray(res[0], dtype=float)
+    counts = [np.asarray(x) for x in res[1:]]
+    samples = [e for e in rec.events if e[0].startswith('bootstrap_sample')]
+    if len(samples) != N:
+        raise HarnessError('binding lost: %d recorded bootstrap draws for N=%d' % (len(samples), N))
+    if ev.shape != (N, len(spec)):
+        ctx.fail(r + '|shape', case, 'evaluations shape %r' % (ev.shape,))
+        return
+    all_r = list(range(data.n_rdm))
+    all_c = list(range(nc))
+    fit_ptr = 0
+    for i, e in enumerate(samples):
+        out = e[3]
+        if r == 'bootstrap_testset':
+            rdm_idx, pattern_idx = list(out[1]), list(out[2])
+        elif r == 'bootstrap_testset_pattern':
+            rdm_idx, pattern_idx = None, list(out[1])
+        else:
+            rdm_idx, pattern_idx = list(out[1]), None
+        test_r = all_r if rdm_idx is None else [x for x in all_r if x not in set(int(v) for v in rdm_idx)]
+        test_c = all_c if pattern_idx is None else [x for x in all_c if x not in set(int(v) for v in pattern_idx)]
+        want_counts = ([len(test_r)] if rdm_idx is not None else []) + ([len(test_c)] if pattern_idx is not None else [])
+        got_counts = [int(c[i]) for c in counts]
+        if got_counts != want_counts:
+            ctx.fail(r + '|left-out-counts', case, 'resample %d: reported %r, left out %r' % (i, got_counts, want_counts))
+        evaluable = (rdm_idx is None or len(test_r) >= 1) and (pattern_idx is None or len(test_c) >= 3)
+        if not evaluable:
+            if not all(math.isnan(x) for x in ev[i]):
+                ctx.fail(r + '|small-testset-not-nan', case, 'resample %d leaves out %d RDMs / %d conditions but evaluations %r'
+                         % (i, len(test_r), len(test_c), ev[i]))
+            continue
+        vecs = [restrict([float(v) for v in data.dissimilarities[rr]], nc, test_c) for rr in test_r]
+        for j, s in enumerate(spec):
+            theta = s['theta']
+            if s['kind'] == 'fitted':
+                call = obs['fitter'].calls[fit_ptr]
+                fit_ptr += 1
+                theta = call['theta']
+                if call['data'] is not out[0]:
+                    ctx.fail(r + '|fit-not-on-training-set', case, 'resample %d: fitter did not receive the bootstrap sample' % i)
+            pred = restrict(ref_prediction(s, theta), nc, test_c)
+            want = RP.mean_sim(method, pred, vecs)
+            _cmp(ctx, r, case, ev[i, j], want, 'evaluation[%d, model %d]' % (i, j))
+
+
 def _judge_folds(ctx, sig, case, cfg, spec, fitter, evals, train_set, test_set, fit_ptr):
     """evals: (n_model, n_folds) stored evaluations of one crossval() call"""
     method, nc = cfg['method'], cfg['n_cond']
@@ -587,6 +661,10 @@ def _judge_folds(ctx, sig, case, cfg, spec, fitter, evals, train_set, test_set, 
     return fit_ptr
 
 
+def _evals(res):
+    return np.asarray(res[0] if isinstance(res, tuple) else res.evaluations, dtype=float)
+
+
 # ----------------------------------------------------------------------------- shards
 def run_shard(shard, ctx):
     cfg = shard['cfg']
@@ -596,6 +674,9 @@ def run_shard(shard, ctx):
     stats = choice.Stats()
     if r in ('eval_fixed',):
         bound, mx = None, None
+    elif r.startswith('bootstrap_testset'):
+        # leaving out >= 3 conditions needs >= 3 deviations from the identity draw
+        bound, mx = (3 if ctx.tier == 'quick' else 4), 20000
     elif r.startswith('eval_bootstrap'):
         bound, mx = (None, 40000) if (_is_full(cfg) or cfg.get('menu3')) else ((1 if ctx.tier == 'quick' else 2), 6000)
     elif r == 'crossval':
@@ -609,11 +690,11 @@ def run_shard(shard, ctx):
         ctx.case(case, nontrivial=env.deviations > 0 or r in ('eval_fixed',))
         with ctx.guard(r + '|judge', case):
             judge(cfg, obs, ctx, case)
-        ctx.outcome(tuple(np.round(np.nan_to_num(np.asarray(obs['res'].evaluations, dtype=float), nan=-9).ravel(), 9)[:12]))
+        ctx.outcome(tuple(np.round(np.nan_to_num(_evals(obs['res']), nan=-9).ravel(), 9)[:12]))
         if first:
             env2 = choice.Env(env.choices)
             obs2 = execute(cfg, env2, ctx.seed)
-            if not np.array_equal(np.asarray(obs2['res'].evaluations), np.asarray(obs['res'].evaluations), equal_nan=True):
+            if not np.array_equal(_evals(obs2['res']), _evals(obs['res']), equal_nan=True):
                 raise HarnessError('replay of %r diverged' % (case,))
             first = False
     if stats.capped:
